@@ -6,9 +6,12 @@ import (
 	"fmt"
 	"math/rand"
 	"os"
+	"runtime"
 	"strings"
+	"sync/atomic"
 	"testing"
 	"testing/synctest"
+	"time"
 
 	"verif/harness/wire"
 
@@ -56,6 +59,7 @@ type Case struct {
 	Hung      []int    // calls that never returned although the connection failed
 	Pending   []int    // calls still waiting on a healthy connection
 	Quiet     Event    // abstraction at quiescence, before the gates were opened
+	Aborted   string   // the harness faulted inside the case (not a verdict)
 	Leftover  string   // bubble panic text
 	Oracle    []string // violations of the external oracle, as stable keys
 	OracleMsg []string
@@ -564,12 +568,68 @@ func RunCase(t *testing.T, cfg Cfg, seed int64, fn func(k *Case)) (kk *Case) {
 		c.Gated = true
 		k := &Case{C: c, Cfg: cfg, rng: rand.New(rand.NewSource(seed))}
 		kk = k
-		fn(k)
-		k.Complete(4000, false, 1)
-		c.Wait()
-		k.finish()
+		Progress()
+		func() {
+			// A fault inside the harness' view of the client (the snapshot accessor walking a
+			// corrupted request list faults while holding the client lock) must not wedge the
+			// process: give the lock back, abandon the case, let the engine go on.
+			defer func() {
+				if r := recover(); r != nil {
+					k.Aborted = fmt.Sprint(r)
+					if !c.Clnt.TryLock() {
+						c.Clnt.Unlock()
+					} else {
+						c.Clnt.Unlock()
+					}
+				}
+			}()
+			fn(k)
+			k.Complete(4000, false, 1)
+			c.Wait()
+			k.finish()
+		}()
+		if k.Aborted != "" {
+			func() {
+				defer func() { recover() }()
+				c.ReleaseAll()
+				for _, h := range c.callers {
+					close(h.cmd)
+				}
+				c.Clnt.Unmount()
+				c.Conn.Gone()
+				c.Conn.EOF()
+			}()
+		}
 	})
 	return kk
+}
+
+// ---------------------------------------------------------------- watchdog (real time, outside the bubbles)
+
+var progress atomic.Int64
+
+// Progress is called at the start of every case.
+func Progress() { progress.Add(1) }
+
+// StartWatchdog ends the process with a goroutine dump if no case starts for `stall`: a change that
+// introduces a mutex deadlock or a spinning goroutine makes synctest.Wait wait forever.
+func StartWatchdog(stall time.Duration) {
+	go func() {
+		last, since := progress.Load(), time.Now()
+		for {
+			time.Sleep(500 * time.Millisecond)
+			if p := progress.Load(); p != last {
+				last, since = p, time.Now()
+				continue
+			}
+			if time.Since(since) > stall {
+				buf := make([]byte, 1<<20)
+				n := runtime.Stack(buf, true)
+				fmt.Fprintf(os.Stderr, "WATCHDOG: no progress for %v\n%s\n", stall, buf[:n])
+				os.Exit(3)
+			}
+		}
+	}()
 }
 
 // finish: open all gates, see who is stuck, judge, tear down.
